@@ -217,11 +217,26 @@ class Machine:
     def asts(self, sps):
         return [self.ast(s) for s in sps]
 
+    def _resolve(self, ref, live):
+        """handle reference: int (index among live handles, modulo; negative = counted from the most recent) or
+        {"h_var": name, "h": fallback}: the most recent live part returned by split() whose solver knows variable name"""
+        if isinstance(ref, dict):
+            if not self.dry:
+                for x in reversed(live):
+                    if x.origin == "split":
+                        try:
+                            if ref["h_var"] in x.solver.variables:
+                                return x
+                        except Exception:  # noqa: BLE001
+                            pass
+            ref = ref.get("h", 0)
+        return live[ref % len(live)]
+
     def H(self, op):
         live = [h for h in self.handles if h.alive]
         if not live:
             raise _Skip("no handle")
-        return live[op.get("h", 0) % len(live)]
+        return self._resolve(op.get("h", 0), live)
 
     def new_solver(self, cls, kw):
         cl = self.cl
@@ -848,7 +863,7 @@ class Machine:
         live = [x for x in self.handles if x.alive]
         out = []
         for j in op.get("others", []):
-            o = live[j % len(live)]
+            o = self._resolve(j, live)
             if o is h or o in out:
                 continue
             out.append(o)
@@ -865,7 +880,7 @@ class Machine:
         anc = None
         if op.get("ancestor") is not None:
             live = [x for x in self.handles if x.alive]
-            anc = live[op["ancestor"] % len(live)]
+            anc = self._resolve(op["ancestor"], live)
             # only a true common ancestor may be passed
             for x in [h, *others]:
                 if not self._is_ancestor(anc, x):
